@@ -172,6 +172,9 @@ func registerDisp(prop, rule string) {
 			for _, c := range dispHistCfgs(prop, tier) {
 				jobs = append(jobs, c.jobs()...)
 			}
+			if prop == "C10" {
+				jobs = append(jobs, twoProvJob(prop, depth4(tier)))
+			}
 			{
 				pb := 2
 				if tier == "thorough" {
@@ -195,7 +198,7 @@ func registerDisp(prop, rule string) {
 }
 
 func init() {
-	registerDisp("C10", "histories: every sequence to depth 5 (quick) / 6 (thorough) over {CreateScope(provider|scope), resolutions of scoped / transient / second output of a two-output constructor / disposables registered under interface types without Close (alias, interface-typed return) / singleton, Close(scope|provider), cancel} on <=3 scopes of an all-disposable container (with and without scope initializers), completed by closing the provider; multi-output constructors (result object / multiple returns; scoped, transient, singleton) whose second output is nil on the first invocation, so that a later request re-runs the constructor and re-creates the first output; fault positions: every constructor x invocation 1..2(3) x {returns error, panics} during Build, scope creation and resolution, over every history to depth 3/4; schedules: Resolve||Close(scope), Resolve||cancel, Resolve||Close(provider), CreateScope-with-initializers||Close, all schedules with <=2/3 preemptions. Oracle at the end of every execution: every container-created disposable closed exactly once, not before a Close/cancel of its owner, an ancestor or the provider started (or the creation that made it failed); non-disposables untouched. An outcome is the canonical observation string of one execution.")
+	registerDisp("C10", "histories: every sequence to depth 5 (quick) / 6 (thorough) over {CreateScope(provider|scope), resolutions of scoped / transient / second output of a two-output constructor / disposables registered under interface types without Close (alias, interface-typed return) / singleton, Close(scope|provider), cancel} on <=3 scopes of an all-disposable container (with and without scope initializers), completed by closing the provider; multi-output constructors (result object / multiple returns; scoped, transient, singleton) whose second output is nil on the first invocation, so that a later request re-runs the constructor and re-creates the first output; fault positions: every constructor x invocation 1..2(3) x {returns error, panics} during Build, scope creation and resolution, over every history to depth 3/4; schedules: Resolve||Close(scope), Resolve||cancel, Resolve||Close(provider), CreateScope-with-initializers||Close, all schedules with <=2/3 preemptions. two providers built from one collection: every history to depth 4 (5) over {use p1, use p2, close p1, close p2} - closing one provider closes exactly what it owns, once. Oracle at the end of every execution: every container-created disposable closed exactly once, not before a Close/cancel of its owner, an ancestor or the provider started (or the creation that made it failed); non-disposables untouched. An outcome is the canonical observation string of one execution.")
 	registerDisp("C11", "same histories as C10 without faults; oracle on the global stamp sequence: within one owner (each scope; the singleton set) close order is exactly reverse creation order; every close in a descendant scope precedes every own-instance close of its ancestor; every scope-owned close (root scope included) precedes every singleton close; no disposable is closed while a still-open established disposable that received it exists. The property quantifies over configurations and histories; beyond it, the last clause (the stated consequence) is also checked on every schedule (bound 2/3) of the C10 overlap scenarios Resolve||Close(scope|provider), Resolve||cancel, CreateScope-with-initializers||Close, where 'established' means that the operation which constructed the instance completed successfully, or a completed operation handed it out - late arrivals the container refuses and disposes itself are not ordered.")
 	mc.Register(&mc.Check{
 		Prop: "C12", MinOutcomes: 10,
